@@ -1888,6 +1888,255 @@ def samples_history_search(ctx):
 
 
 # ---------------------------------------------------------------------------
+# correspondence + search: SymbolicHamiltonian.expectation_from_circuit — the measurement
+# layer (one measurement per non-identity factor, on that factor's qubit in that factor's
+# Pauli basis, for every written order of the factors) and the estimate it produces
+# (lean/QV/Model/HamilCirc.lean, theorems T15_circuit_*).
+
+CIRC_PRE = PRE + "from qibo import Circuit, gates\n"
+EIGEN = {  # Pauli axis, sign -> (preparation gates on |0>, un-normalised integer amplitudes)
+    ("Z", 1): ([], (1, 0)), ("Z", -1): (["X"], (0, 1)),
+    ("X", 1): (["H"], (1, 1)), ("X", -1): (["X", "H"], (1, -1)),
+    ("Y", 1): (["H", "S"], (1, 1j)), ("Y", -1): (["X", "H", "S"], (1, -1j)),
+}
+
+
+def _pauli_terms_src(terms, const):
+    parts = []
+    for c, fs in terms:
+        parts.append(f"({c!r})*" + "*".join(f"{k}({q})" for k, q in fs))
+    if const != 0:
+        parts.append(f"({const!r})")
+    return " + ".join(parts)
+
+
+def _pauli_terms_matrix(terms, const, n):
+    M = complex(const) * np.eye(2**n, dtype=complex)
+    for c, fs in terms:
+        T = np.eye(2**n, dtype=complex)
+        for k, q in fs:
+            T = T @ embed(PAULI[k], q, n)
+        M = M + c * T
+    return M
+
+
+def _order_name(fs):
+    qs = [q for k, q in fs if k != "I"]
+    if len(qs) < 2 or qs == sorted(qs):
+        return "ascending"
+    return "descending" if qs == sorted(qs, reverse=True) else "mixed"
+
+
+def _gen_pauli_terms(rng, n, axis=None):
+    """1-3 Pauli strings, one factor per qubit, written in ascending / descending / shuffled
+    qubit order; `axis` (qubit -> Pauli) forces the Pauli of each qubit (deterministic shots)."""
+    terms = []
+    for _ in range(rng.randint(1, 3)):
+        k = rng.randint(1, n)
+        qs = rng.sample(range(n), k)
+        order = rng.choice(["asc", "desc", "desc", "shuffle"])
+        qs = sorted(qs) if order == "asc" else (sorted(qs, reverse=True) if order == "desc" else qs)
+        fs = [((axis[q] if axis else rng.choice("XYZ")), q) for q in qs]
+        if rng.random() < 0.15:
+            free = [q for q in range(n) if q not in qs]
+            if free:
+                fs.insert(rng.randrange(len(fs) + 1), ("I", rng.choice(free)))
+        terms.append((rng.choice([1, -1, 2, -2, 3, -3]), fs))
+    return terms
+
+
+def _layers_of(circuits):
+    out = []
+    for c in circuits:
+        pairs = []
+        for m in c.measurements:
+            names = [getattr(b, "__name__", str(b)) for b in getattr(m, "basis_gates", [])] or list(m.init_kwargs.get("basis", []))
+            pairs += list(zip(m.target_qubits, names))
+        out.append(sorted(pairs))
+    return out
+
+
+def corr_circuit(ctx):
+    import sympy
+
+    from qibo import Circuit, gates
+    from qibo.hamiltonians import SymbolicHamiltonian
+
+    rng = ctx.rng
+    N = 70 if ctx.thorough else 26
+    fixed = [
+        (2, {0: ("X", 1), 1: ("Z", -1)}, [(1, [("Z", 1), ("X", 0)])], 0),
+        (3, {0: ("X", 1), 1: ("Z", -1), 2: ("Y", 1)}, [(1, [("Z", 1), ("X", 0)]), (0.5, [("Y", 2), ("Z", 1)])], 0),
+        (3, {0: ("X", -1), 1: ("Z", 1), 2: ("Y", -1)}, [(1, [("Y", 2), ("X", 0)]), (-2, [("Z", 1)])], 0),
+        (2, {0: ("X", 1), 1: ("Z", -1)}, [(1, [("Z", 1), ("X", 0)])], 2),
+        (2, {0: ("Z", 1), 1: ("Z", -1)}, [(1, [("I", 0)]), (1, [("Z", 1)])], 0),
+    ]
+    lines, meta = [], []
+    for it in range(N + len(fixed)):
+        if it < len(fixed):
+            n, st, terms, const = fixed[it]
+        else:
+            n = rng.choice([1, 2, 3, 3, 4])
+            st = {q: (rng.choice("XYZ"), rng.choice([1, -1])) for q in range(n)}
+            terms = _gen_pauli_terms(rng, n, axis={q: st[q][0] for q in range(n)})
+            const = rng.choice([0, 0, 0, 2, -1, 1.5])
+        src = CIRC_PRE + f"n = {n}\nc = Circuit(n)\n"
+        c = Circuit(n)
+        amps = np.ones(1, dtype=complex)
+        for q in range(n):
+            prep, a = EIGEN[st[q]]
+            for g in prep:
+                c.add(getattr(gates, g)(q))
+                src += f"c.add(gates.{g}({q}))\n"
+            amps = np.kron(amps, np.array(a, dtype=complex))
+        form_s = _pauli_terms_src(terms, const)
+        src += f"h = SymbolicHamiltonian(sympy.sympify({form_s}), nqubits=n)\n"
+        env = {}
+        exec(CIRC_PRE, env)  # noqa: S102 - own generated text
+        h = SymbolicHamiltonian(sympy.sympify(eval(form_s, env)), nqubits=n)  # noqa: S307
+        M = _pauli_terms_matrix(terms, const, n)
+        src += "M = " + " + ".join(
+            [f"({cf!r}) * " + " @ ".join(f"E(P['{k}'], {q}, n)" for k, q in fs) for cf, fs in terms] + [f"({const!r}) * np.eye(2**n)"]) + "\n"
+        # model input: the real term list (coefficient, factors in the order the term keeps them)
+        try:
+            rterms = [(complex(t.coefficient), [(f.name[0], f.target_qubit) for f in t.factors]) for t in h.terms]
+            rconst = complex(h.constant)
+            toks = " ".join(f"{gi(cf)} {len(fs)} " + " ".join(f"{k} {q}" for k, q in fs) for cf, fs in rterms)
+            lines.append(f"CIRC {n} {len(rterms)} {toks} {gis(amps)}")
+            li = len(lines) - 1
+        except ValueError:
+            rterms, rconst, li = None, None, None
+        meta.append((n, st, terms, const, c, h, M, amps, src, rterms, rconst, li))
+    outs = run_driver(lines, driver=DRIVER)
+    bad_layer = bad_value = 0
+    for n, st, terms, const, c, h, M, amps, src, rterms, rconst, li in meta:
+        orders = [_order_name(fs) for _, fs in terms]
+        worst = "mixed" if "mixed" in orders else ("descending" if "descending" in orders else "ascending")
+        ctx.case(("corr-circuit", n, _pauli_terms_src(terms, const), tuple(sorted(st.items()))))
+        ctx.stat(f"circ_det_{worst}")
+        psi = amps / np.linalg.norm(amps)
+        exact = float(np.real(np.vdot(psi, M @ psi)))
+        rec = []
+        be = h.backend
+        orig = be.execute_circuits
+
+        def spy(circuits, *a, _orig=orig, _rec=rec, **k):
+            _rec.extend(circuits)
+            return _orig(circuits, *a, **k)
+
+        exn = None
+        try:
+            be.execute_circuits = spy
+            got = complex(h.expectation_from_circuit(c, nshots=40))
+        except Exception as ex:  # noqa: BLE001
+            got, exn = complex("nan"), ex
+        finally:
+            try:
+                del be.execute_circuits
+            except AttributeError:
+                be.execute_circuits = orig
+        model_val = None
+        if li is not None:
+            left, nrm = outs[li].split("||")
+            nrm = parse_gis(nrm)[0].real
+            mt = []
+            for part in ([] if not left.strip() else left.split("|")):
+                k, layer, v, e = part.split(";")
+                mt.append((int(k), sorted((int(x.split(":")[0]), x.split(":")[1]) for x in layer.split()), parse_gis(v)[0], parse_gis(e)[0]))
+            model_val = sum(cf * v / (2**k * nrm) for (cf, _), (k, _, v, _) in zip(rterms, mt)) + rconst
+            # the theorem, on data: measuredValue = 2^k <psi|P psi>
+            if any(abs(v - 2**k * e) > 0 for k, _, v, e in mt):
+                bad_value += 1
+                fail(ctx, "from-circuit:model-inconsistent", "model: measuredValue differs from 2^k <psi|P psi> (contradicts T15_circuit_term)", src, broken=["C15_corr_circuit_value"])
+            # (1) the measurement layer of the real rotated circuits
+            if rec and exn is None:
+                real_layers = _layers_of(rec)
+                model_layers = [ly for _, ly, _, _ in mt if ly]
+                if real_layers != model_layers:
+                    bad_layer += 1
+                    ctx.stat("circ_layer_mismatch")
+            elif exn is None:
+                ctx.stat("circ_layer_not_recorded")
+        # (2) the estimate: every shot is deterministic, so it must be exact
+        ok = exn is None and abs(got - exact) < 1e-9
+        if model_val is not None and abs(model_val - exact) > 1e-9:
+            ok = False
+        if ok:
+            continue
+        bad_value += 1
+        if exn is not None:
+            key = "from-circuit:raises:identity-term" if any(all(k == "I" for k, _ in fs) for _, fs in terms) else f"from-circuit:raises:{type(exn).__name__}"
+        elif const != 0 and abs(got + const - exact) < 1e-9:
+            key = "from-circuit:constant-dropped"
+        else:
+            key = f"from-circuit:{worst}"
+        fail(ctx, key,
+             f"expectation_from_circuit of {_pauli_terms_src(terms, const)} on the product of Pauli eigenstates {dict(sorted(st.items()))} (every shot deterministic) is "
+             f"{got if exn is None else repr(exn)}, <psi|H|psi> = {exact}",
+             src + "psi = c().state()\nexact = float(np.real(np.vdot(psi, M @ psi)))\n"
+             "got = h.expectation_from_circuit(c, nshots=40)\nassert abs(got - exact) < 1e-9, (got, exact)\n",
+             expected=exact, observed=str(got), broken=["C15_corr_circuit_value", "C15_corr_circuit_layer"])
+    ctx.ob("C15_corr_circuit_layer", bad_layer == 0, "correspondence", f"{bad_layer} measurement layers differ from the model" if bad_layer else "")
+    ctx.ob("C15_corr_circuit_value", bad_value == 0, "correspondence", f"{bad_value} estimates differ" if bad_value else "")
+
+
+def circuit_search(ctx):
+    """generic (entangled) states: the estimate is statistical; compare with <psi|H|psi>
+    within six standard deviations (seeded sampling, so the replay is deterministic)."""
+    import sympy
+
+    from qibo import Circuit, gates
+    from qibo.hamiltonians import SymbolicHamiltonian
+
+    rng = ctx.rng
+    allok = True
+    nshots = 3000
+    for it in range(24 if ctx.thorough else 9):
+        n = rng.choice([2, 3, 3, 4])
+        terms = _gen_pauli_terms(rng, n)
+        const = 0  # the identity component is the business of corr_circuit
+        c = Circuit(n)
+        src = CIRC_PRE + f"n = {n}\nc = Circuit(n)\n"
+        for _ in range(rng.randint(n, 2 * n + 1)):
+            if n > 1 and rng.random() < 0.35:
+                a, b = rng.sample(range(n), 2)
+                c.add(gates.CNOT(a, b))
+                src += f"c.add(gates.CNOT({a}, {b}))\n"
+            else:
+                g, q, th = rng.choice(["RX", "RY", "RZ"]), rng.randrange(n), round(rng.uniform(0, 2 * np.pi), 3)
+                c.add(getattr(gates, g)(q, th))
+                src += f"c.add(gates.{g}({q}, {th}))\n"
+        form_s = _pauli_terms_src(terms, const)
+        env = {}
+        exec(CIRC_PRE, env)  # noqa: S102 - own generated text
+        h = SymbolicHamiltonian(sympy.sympify(eval(form_s, env)), nqubits=n)  # noqa: S307
+        M = _pauli_terms_matrix(terms, const, n)
+        psi = np.asarray(c().state())
+        exact = float(np.real(np.vdot(psi, M @ psi)))
+        tol = 6 * float(np.sqrt(sum(abs(cf) ** 2 for cf, _ in terms) / nshots)) + 1e-9
+        seed = rng.randrange(2**31)
+        orders = [_order_name(fs) for _, fs in terms]
+        worst = "mixed" if "mixed" in orders else ("descending" if "descending" in orders else "ascending")
+        ctx.case(("circuit-search", n, form_s, src[-200:]))
+        ctx.stat(f"circ_generic_{worst}")
+        try:
+            h.backend.set_seed(seed)
+            got = float(np.real(h.expectation_from_circuit(c, nshots=nshots)))
+        except Exception as exn:  # noqa: BLE001
+            got = float("nan")
+        if not abs(got - exact) <= tol:
+            allok = False
+            ctx.fail(f"from-circuit:statistical:{worst}",
+                     f"expectation_from_circuit of {form_s} with {nshots} shots is {got}, <psi|H|psi> = {exact} (tolerance {tol:.4f} = 6 sigma)",
+                     src + f"h = SymbolicHamiltonian(sympy.sympify({form_s}), nqubits=n)\nM = " + " + ".join(
+                         [f"({cf!r}) * " + " @ ".join(f"E(P['{k}'], {q}, n)" for k, q in fs) for cf, fs in terms]) + "\n"
+                     f"psi = c().state()\nexact = float(np.real(np.vdot(psi, M @ psi)))\nh.backend.set_seed({seed})\n"
+                     f"got = float(np.real(h.expectation_from_circuit(c, nshots={nshots})))\nassert abs(got - exact) <= {tol!r}, (got, exact)\n",
+                     expected=exact, observed=got, broken=["C15_search_circuit"])
+    ctx.ob("C15_search_circuit", allok, "search", "" if allok else "see failing inputs")
+
+
+# ---------------------------------------------------------------------------
 
 
 def run(ctx):
@@ -1899,6 +2148,7 @@ def run(ctx):
     corr_samples(ctx)
     corr_models(ctx)
     corr_history(ctx)
+    corr_circuit(ctx)
     # direct search on the real code against plain numpy arithmetic
     forms_search(ctx)
     algebra_search(ctx)
@@ -1907,6 +2157,7 @@ def run(ctx):
     models_search(ctx)
     history_search(ctx)
     samples_history_search(ctx)
+    circuit_search(ctx)
     ctx.trusted += [
         "sympy: construction-time normalisation of expressions, `expand`, `as_coefficients_dict`, `as_ordered_terms/factors` keep the order of non-commutative symbols and denote the same element of the free algebra (the model's `expand` is compared with sympy's on every case: obligation C15_corr_expand_oracle)",
         "numpy kron / matmul / matrix_power / einsum on 2^n-dimensional arrays behave as the bit-label model of QV/Model/Hamil.lean (modelled, compared exactly on Gaussian-integer data on every run)",
@@ -1924,7 +2175,7 @@ def run(ctx):
         "expectation_from_samples of sums/differences of already used diagonal observables"
     )
     ctx.assumptions += [
-        "expectation_from_circuit (shots, basis rotations) is outside the check",
+        "expectation_from_circuit: the law of large numbers is not proved — the estimate is compared exactly on products of Pauli eigenstates (every shot deterministic) and within 6 sigma on generic states; terms with several factors on one qubit are outside this route (the real code measures Pauli strings only)",
         "sympy's normalisation of composed forms (h1 - h2 -> Add(f1, Mul(-1, f2)), collection of like terms) is trusted to keep the element of the free algebra; the history suite compares the resulting objects' action and constant with the model on every run",
         "sparse matrices and non-numpy backends are not exercised",
     ]
